@@ -72,6 +72,23 @@ Theorem C16_unsupported_rejected :
 Proof. exact unsupported_rejected. Qed.
 Print Assumptions C16_unsupported_rejected.
 
+(* Every description is a well-formed Varlink type, except for the Known class of the open finding
+   C16.nested_option_roundtrip: an Option applied (possibly through Box/Rc/Arc/Cell/RefCell/Cow) to a
+   type that is itself described as optional gives ??T, which the IDL grammar does not have. *)
+Theorem C16_descriptions_wellformed :
+  forall ty : rust_ty, supported ty -> nested_option ty = false -> users_wf ty = true ->
+  exists d, type_of ty = Some d /\ varlink_wf d = true.
+Proof. exact descriptions_wellformed. Qed.
+Print Assumptions C16_descriptions_wellformed.
+
+Theorem C16_nested_option_refuted :
+  exists ty : rust_ty, supported ty /\ nested_option ty = true /\
+  type_of ty = Some (TOptional (TOptional TString)) /\ varlink_wf (TOptional (TOptional TString)) = false.
+Proof.
+  exists (RApp C_Option (RApp C_Box (RApp C_Option (RLeaf L_String)))). vm_compute. repeat split.
+Qed.
+Print Assumptions C16_nested_option_refuted.
+
 (* Non-vacuity: a struct with nested std types, a nested custom type, a raw identifier and doc comments
    satisfies the hypotheses and evaluates to the stated description. *)
 Example C16_nonvacuous :
